@@ -44,6 +44,10 @@
             (bytevector-u8-set! buf (+ col 2) (hex (bitwise-and c #b1111)))
             (lp (+ i 1) (+ col 3))))))))))
 
+;; The result for a port is a bytevector, for a string a string.
+(define (qp-write res)
+  (write-string (if (bytevector? res) (utf8->string res) res)))
+
 ;;> Return a quoted-printable encoded representation of the input
 ;;> according to the official standard as described in RFC2045.
 ;;>
@@ -68,13 +72,13 @@
          (max-col (if (pair? o) (car o) *default-max-col*))
          (o (if (pair? o) (cdr o) '()))
          (sep (if (pair? o) (car o) (string->utf8 "=\r\n"))))
-    (qp-encode (if (bytevector? src) src (read-bytevector 1000000000 src))
+    (qp-encode (if (bytevector? src) src (port->bytevector src))
                start-col max-col sep)))
 
 ;;> Variation of the above to read and write to ports.
 
 (define (quoted-printable-encode . o)
-  (write-string (apply quoted-printable-encode-string o)))
+  (qp-write (apply quoted-printable-encode-string o)))
 
 ;;> Return a quoted-printable encoded representation of string as
 ;;> above, wrapped in =?ENC?Q?...?= as per RFC1522, split across
@@ -126,7 +130,7 @@
     (+ (arithmetic-shift (unhex1 c1) 4) (unhex1 c2)))
   (let ((src (if (pair? o) (car o) (current-input-port)))
         (mime-header? (and (pair? o) (pair? (cdr o)) (car (cdr o)))))
-    (let* ((bv (if (bytevector? src) src (read-bytevector 1000000000 src)))
+    (let* ((bv (if (bytevector? src) src (port->bytevector src)))
            (end (bytevector-length bv))
            (out (open-output-bytevector)))
       (let lp ((i 0))
@@ -177,4 +181,4 @@
 ;;> Variation of the above to read and write to ports.
 
 (define (quoted-printable-decode . o)
-  (write-string (apply quoted-printable-decode-string o)))
+  (qp-write (apply quoted-printable-decode-string o)))
